@@ -69,7 +69,7 @@ structure TextCell (W : Nat → Option Nat) (cols col : Nat) (c : Cell) (f : Nat
   width : 1 ≤ (W f).getD 1
   wide : c.wide = decide ((W f).getD 1 > 1)
   cont : c.cont = false
-  fits : col + (W f).getD 1 ≤ cols
+  fits : col + min ((W f).getD 1) 2 ≤ cols
   zero : ∀ z ∈ zs, W z = some 0
   pre : prefixOk (Utf8.encode f).length zs
   view : view c = typedView W c.attrs f zs
